@@ -79,6 +79,11 @@ func (e *Env) lockStruct(pkg *packages.Package, tn *types.TypeName, st *types.St
 		}
 	}
 	var accesses []fieldAccess
+	type callSite struct {
+		in   *ast.FuncDecl
+		held bool
+	}
+	callSites := map[*types.Func][]callSite{}
 	for _, fd := range load.AllFuncDecls(pkg) {
 		if fd.Body == nil {
 			continue
@@ -138,6 +143,16 @@ func (e *Env) lockStruct(pkg *packages.Package, tn *types.TypeName, st *types.St
 			if fl, ok := n.(*ast.FuncLit); ok {
 				lits = append(lits, fl)
 			}
+			if call, isCall := n.(*ast.CallExpr); isCall {
+				// calls of same-package functions: remembered with the lock state at the call
+				if fn := calleeFunc(info, call); fn != nil && fn.Pkg() == pkg.Types {
+					h := held(call.Pos())
+					if len(lits) > 0 {
+						h = litHeld[lits[len(lits)-1]]
+					}
+					callSites[fn] = append(callSites[fn], callSite{fd, h})
+				}
+			}
 			se, ok := n.(*ast.SelectorExpr)
 			if !ok {
 				return true
@@ -153,6 +168,35 @@ func (e *Env) lockStruct(pkg *packages.Package, tn *types.TypeName, st *types.St
 			accesses = append(accesses, fieldAccess{field: v, write: isWriteContext(stack), pos: se.Pos(), fn: fd, held: h})
 			return true
 		})
+	}
+	// an unexported function that never takes the mutex itself and is called only with the mutex
+	// held (every call site in the package; at least one) runs under the caller's lock
+	callerHolds := map[*ast.FuncDecl]bool{}
+	for round := 0; round < 3; round++ {
+		for _, fd := range load.AllFuncDecls(pkg) {
+			if fd.Body == nil || callerHolds[fd] || ast.IsExported(fd.Name.Name) || len(lockRegions(info, fd.Body, mu)) > 0 {
+				continue
+			}
+			fn, _ := info.Defs[fd.Name].(*types.Func)
+			sites := callSites[fn]
+			if fn == nil || len(sites) == 0 {
+				continue
+			}
+			all := true
+			for _, cs := range sites {
+				if !cs.held && !callerHolds[cs.in] {
+					all = false
+				}
+			}
+			if all {
+				callerHolds[fd] = true
+			}
+		}
+	}
+	for i := range accesses {
+		if callerHolds[accesses[i].fn] {
+			accesses[i].held = true
+		}
 	}
 	// constructors: functions that build the struct with a composite literal and touch fields only there
 	written := map[*types.Var]bool{}
